@@ -524,3 +524,7 @@ M('C13', 'revert F21: argument values converted with an unchecked cast', 'evalua
 M('C13', 'argument values converted with casting unsafe', 'evaluable.py', "casting=_pyast.LiteralStr('same_kind'), copy=_pyast.LiteralBool(False)))", "casting=_pyast.LiteralStr('unsafe'), copy=_pyast.LiteralBool(False)))", rule='R13.6')
 M('C13', 'benign: argument values converted with casting safe', 'evaluable.py', "casting=_pyast.LiteralStr('same_kind'), copy=_pyast.LiteralBool(False)))", "casting=_pyast.LiteralStr('safe'), copy=_pyast.LiteralBool(False)))", expect='silent')
 M('C13', 'argument values not converted at all', 'evaluable.py', "get_attr('asarray').call(builder.get_argument(self.name)).get_attr('astype').call(self.ast_dtype, casting=_pyast.LiteralStr('same_kind'), copy=_pyast.LiteralBool(False)))", "get_attr('asarray').call(builder.get_argument(self.name)))", rule='R13.3')
+M('C18', 'seed C18-agent2-1: empty entry file unlinked when the function raises', 'cache.py', "            with disable(), log.add(log_):\n                value = func(*args, **kwargs)\n            pickle.dump((value, log_), f)", "            try:\n                with disable(), log.add(log_):\n                    value = func(*args, **kwargs)\n            except BaseException:\n                cachefile.unlink()\n                raise\n            pickle.dump((value, log_), f)", rule='R18.8')
+M('C18', 'recursion entry files removed with os.remove after the end marker', 'cache.py', "                if stop:\n                    return\n                yield value", "                if stop:\n                    os.remove(cachefile)\n                    return\n                yield value", rule='R18.8')
+M('C18', 'seed C18-agent2-2: end marker returns before replaying its log', 'cache.py', "                            log.debug('[cache.Recursion {}.{:04d}] load'.format(hkey, i))\n                            log_.replay()", "                            log.debug('[cache.Recursion {}.{:04d}] load'.format(hkey, i))\n                            if stop:\n                                return\n                            log_.replay()", rule='R18.5')
+M('C18', 'benign: replay before the debug line', 'cache.py', "                            log.debug('[cache.Recursion {}.{:04d}] load'.format(hkey, i))\n                            log_.replay()", "                            log_.replay()\n                            log.debug('[cache.Recursion {}.{:04d}] load'.format(hkey, i))", expect='silent')
